@@ -110,6 +110,24 @@ class Build:
             self._apidrv[key] = out
         return self._apidrv[key]
 
+    def narrowdrv(self):
+        """Width-narrowed copy of counts/counts.go + exhaustive driver; returns (path or None, note)."""
+        d = self.harness_dir()
+        nd = os.path.join(d, "ncounts")
+        os.makedirs(nd, exist_ok=True)
+        src = os.path.join(REPO, "counts", "counts.go")
+        p = subprocess.run(["go", "run", "./cmd/narrow", src, os.path.join(nd, "counts.go")], cwd=d, env=goenv(),
+                           stdout=subprocess.PIPE, stderr=subprocess.STDOUT)
+        if p.returncode != 0:
+            return None, "narrowing rewrite failed: " + p.stdout.decode(errors="replace")[-300:]
+        nrew = p.stdout.decode().strip().splitlines()[-1]
+        out = os.path.join(self.dir, "narrowdrv")
+        p = subprocess.run(["go", "build", "-o", out, "./cmd/narrowdrv"], cwd=d, env=goenv(),
+                           stdout=subprocess.PIPE, stderr=subprocess.STDOUT)
+        if p.returncode != 0:
+            return None, "narrowed copy does not compile: " + p.stdout.decode(errors="replace")[-300:]
+        return out, "%s identifiers rewritten" % nrew
+
     def scratchdir(self):
         if self.scratch is None:
             base = "/dev/shm" if os.path.isdir("/dev/shm") and os.access("/dev/shm", os.W_OK) else tempfile.gettempdir()
